@@ -8,6 +8,10 @@ Model's `Value` (what the harness checks for the API).
 import EvalexprVerif.Generated.FnSweep
 import EvalexprVerif.Translate.Lemmas
 import EvalexprVerif.Model.Iter
+import EvalexprVerif.Model.Serde
+import EvalexprVerif.Proofs.Iterators
+import EvalexprVerif.Proofs.AgreeFnIter
+import EvalexprVerif.Proofs.AgreeFnInterface
 
 set_option linter.unusedSimpArgs false
 
@@ -143,5 +147,78 @@ theorem fn_Value_fmt_agree (v : Value) : Gen.Value.fmt v = Value.display v := by
   | _ => simp [Gen.Value.fmt, Value.display, Rs.to_string, Rs.ToString.to_string]
 termination_by sizeOf v
 decreasing_by subst ht; exact Rs.value_lt hx
+
+/-! ### phase 8: serde `visit_str` (src/feature_serde/mod.rs) = `deserializeNode` (Model/Serde.lean)
+boundary: `E::custom(error)` ↦ `Rs.de_custom error` (the error is kept as `Err`, as in the Model) -/
+theorem fn_NodeVisitor_visit_str_agree (s : Str) : Gen.NodeVisitor.visit_str () s = deserializeNode s := by
+  simp only [Gen.NodeVisitor.visit_str, deserializeNode, fn_build_operator_tree_agree, Rs.de_custom]
+  cases buildOperatorTree s <;> rfl
+
+/-! ### phase 8: `Node::iter` / `Node::iter_operators_mut` (src/tree/iter.rs) = `Node.iter` / `Node.iterOperatorsMut`
+
+The translated functions collect the translated `NodeIter::next` / `OperatorIterMut::next` to exhaustion
+(`Rs.collect_iter`); with any fuel above the size of the tree the result is the Model's list. This puts a theorem
+behind the phase-6 boundary entries `Node::iter ↦ Evalexpr.Node.iter`, `iter_operators_mut ↦ Evalexpr.Node.iterOperatorsMut`. -/
+open Evalexpr.Spec in
+theorem nodeIterNext_length : ∀ (rs : List (List Node)) (n : Node) (rs' : List (List Node)),
+    nodeIterNext rs = some (n, rs') → rs'.length ≤ rs.length + 1
+  | [], _, _, h => by simp [nodeIterNext] at h
+  | [] :: st, n, st', h => by
+    simp only [nodeIterNext] at h
+    have := nodeIterNext_length st n st' h
+    simp only [List.length_cons]; omega
+  | (m :: rest) :: st, n, st', h => by
+    simp only [nodeIterNext, Option.some.injEq, Prod.mk.injEq] at h
+    obtain ⟨rfl, rfl⟩ := h
+    simp
+
+open Evalexpr.Spec in
+theorem collect_iter_nodes (fuel0 : Nat) : ∀ (fuel : Nat) (rs : List (List Node)),
+    stackSize rs < fuel → rs.length + stackSize rs < fuel0 →
+    Rs.collect_iter (Gen.NodeIter.next fuel0) fuel ⟨rs.reverse⟩ = .ok (collectNodes fuel rs)
+  | 0, _, h, _ => by omega
+  | fuel + 1, rs, h, h0 => by
+    rw [Rs.collect_iter, fn_NodeIter_next_agree rs fuel0 (by omega), collectNodes]
+    cases hn : nodeIterNext rs with
+    | none => rfl
+    | some p =>
+      obtain ⟨n, rs'⟩ := p
+      have h1 := (nodeIterNext_some rs n rs' hn).2
+      have h2 := nodeIterNext_length rs n rs' hn
+      simp only []
+      rw [collect_iter_nodes fuel0 fuel rs' (by omega) (by omega)]
+      rfl
+
+open Evalexpr.Spec in
+theorem collect_iter_operators (fuel0 : Nat) : ∀ (fuel : Nat) (rs : List (List Node)),
+    stackSize rs < fuel → rs.length + stackSize rs < fuel0 →
+    Rs.collect_iter (Gen.OperatorIterMut.next fuel0) fuel ⟨rs.reverse⟩ = .ok (collectOperators fuel rs)
+  | 0, _, h, _ => by omega
+  | fuel + 1, rs, h, h0 => by
+    rw [Rs.collect_iter, fn_OperatorIterMut_next_agree rs fuel0 (by omega), collectOperators, operatorIterMutNext_eq]
+    cases hn : nodeIterNext rs with
+    | none => rfl
+    | some p =>
+      obtain ⟨n, rs'⟩ := p
+      have h1 := (nodeIterNext_some rs n rs' hn).2
+      have h2 := nodeIterNext_length rs n rs' hn
+      simp only [Option.map]
+      rw [collect_iter_operators fuel0 fuel rs' (by omega) (by omega)]
+      rfl
+
+open Evalexpr.Spec in
+theorem fn_Node_iter_agree (n : Node) (fuel : Nat) (h : n.size < fuel) : Gen.Node.iter fuel n = .ok n.iter := by
+  have hs : stackSize [n.children] + 1 = n.size := by simp [stackSize, size_eq n]; omega
+  rw [Gen.Node.iter, fn_NodeIter_new_agree, show [n.children] = [n.children].reverse from rfl,
+    collect_iter_nodes fuel fuel [n.children] (by omega) (by simp only [List.length_cons, List.length_nil]; omega)]
+  rw [Node.iter, collectNodes_eq fuel _ (by omega), collectNodes_eq _ _ (by omega)]
+
+open Evalexpr.Spec in
+theorem fn_Node_iter_operators_mut_agree (n : Node) (fuel : Nat) (h : n.size < fuel) :
+    Gen.Node.iter_operators_mut fuel n = .ok n.iterOperatorsMut := by
+  have hs : stackSize [n.children] + 1 = n.size := by simp [stackSize, size_eq n]; omega
+  rw [Gen.Node.iter_operators_mut, fn_OperatorIterMut_new_agree, show [n.children] = [n.children].reverse from rfl,
+    collect_iter_operators fuel fuel [n.children] (by omega) (by simp only [List.length_cons, List.length_nil]; omega)]
+  rw [Node.iterOperatorsMut, collectOperators_eq, collectOperators_eq, collectNodes_eq fuel _ (by omega), collectNodes_eq _ _ (by omega)]
 
 end Evalexpr.AgreeFn
